@@ -23,8 +23,9 @@ install_demo() {
 import sys,re
 f,d=sys.argv[1],sys.argv[2]
 s=open(f).read(); demo=open(d).read()
-i=s.rfind('}')
-open(f,'w').write(s[:i]+"\n"+demo+"\n}\n")
+k=s.find('mod tests {')
+i=s.find('\n}\n',k)+1 if k>=0 else s.rfind('}')
+open(f,'w').write(s[:i]+"\n"+demo+"\n"+s[i:])
 PY
   else
     cp $S/demo.rs tests/demo.rs
